@@ -1,6 +1,7 @@
 //! C12: PCI bus helpers (src/transport/pci/bus.rs) against a twin of the reference PCI function of
 //! coq/theories/Model/PciBus.v behind `ConfigurationAccess`, with an ordered access log.
-//!  * bar_info / bars: every BAR kind x slot x size x prefetchable x aligned address x directed command
+//!  * bar_info / bars: every BAR kind x slot x size x decoder width (writable address bits [k, m): full, 16-bit I/O,
+//!    20-bit below-1-MiB, narrow 64-bit) x prefetchable x aligned address x directed command
 //!    values; lines 1210/1211 (correspondence) and monitors 1250..1254 (the property itself);
 //!  * get_status_command / set_command (1212, 1213);
 //!  * Cam::cam_offset through the public method (1201) and through MmioCam + the custom MMIO
@@ -21,41 +22,41 @@ use virtio_drivers::transport::pci::bus::{
 // ---------------------------------------------------------------- the twin of the reference function
 #[derive(Clone, Copy, Debug)]
 pub struct Slot { pub kind: u8, pub mask: u32, pub val: u32 }
-const DSLOT: Slot = Slot { kind: 0, mask: 0xffff_ffff, val: 0 };
+pub const DSLOT: Slot = Slot { kind: 0, mask: 0xffff_ffff, val: 0 };
 #[derive(Clone)]
 pub struct RefFn { pub cmd: u16, pub status: u16, pub bars: [Slot; 6], pub regs: [u32; 64] }
 impl RefFn {
     pub fn new(cmd: u16, status: u16, bars: [Slot; 6]) -> Self { RefFn { cmd, status, bars, regs: [0; 64] } }
-    fn read(&self, off: u8) -> u32 {
+    pub fn read(&self, off: u8) -> u32 {
         let off = off & !3;
         if off == 4 { ((self.status as u32) << 16) | self.cmd as u32 }
         else if (16..40).contains(&off) { self.bars[((off - 16) / 4) as usize].val }
         else { self.regs[(off / 4) as usize] }
     }
-    fn write(&mut self, off: u8, v: u32) {
+    pub fn write(&mut self, off: u8, v: u32) {
         let off = off & !3;
         if off == 4 { self.cmd = v as u16; self.status &= !(((v >> 16) as u16) & 0xF900); }
         else if (16..40).contains(&off) { let b = &mut self.bars[((off - 16) / 4) as usize]; b.val = (b.mask & b.val) | (v & !b.mask); }
         else { self.regs[(off / 4) as usize] = v; }
     }
-    fn enc(&self) -> Vec<u128> {
+    pub fn enc(&self) -> Vec<u128> {
         let mut o = vec![self.cmd as u128, self.status as u128];
         for b in &self.bars { o.extend([b.kind as u128, b.mask as u128, b.val as u128]); }
         o
     }
-    fn slots_enc(&self) -> Vec<u128> { self.enc()[2..].to_vec() }
-    fn vals(&self) -> Vec<u128> { self.bars.iter().map(|b| b.val as u128).collect() }
+    pub fn slots_enc(&self) -> Vec<u128> { self.enc()[2..].to_vec() }
+    pub fn vals(&self) -> Vec<u128> { self.bars.iter().map(|b| b.val as u128).collect() }
 }
 pub struct Bus { pub bus: u8, pub fns: BTreeMap<(u8, u8), RefFn>, pub log: Vec<(bool, u8, u32, u16)> }
 #[derive(Clone)]
 pub struct Twin(pub Rc<RefCell<Bus>>);
 impl Twin {
-    fn single(df: DeviceFunction, f: RefFn) -> Twin {
+    pub fn single(df: DeviceFunction, f: RefFn) -> Twin {
         let mut fns = BTreeMap::new(); fns.insert((df.device, df.function), f);
         Twin(Rc::new(RefCell::new(Bus { bus: df.bus, fns, log: vec![] })))
     }
-    fn func(&self, df: DeviceFunction) -> RefFn { self.0.borrow().fns[&(df.device, df.function)].clone() }
-    fn take_log(&self) -> Vec<(bool, u8, u32, u16)> { std::mem::take(&mut self.0.borrow_mut().log) }
+    pub fn func(&self, df: DeviceFunction) -> RefFn { self.0.borrow().fns[&(df.device, df.function)].clone() }
+    pub fn take_log(&self) -> Vec<(bool, u8, u32, u16)> { std::mem::take(&mut self.0.borrow_mut().log) }
 }
 impl ConfigurationAccess for Twin {
     fn read_word(&self, df: DeviceFunction, off: u8) -> u32 {
@@ -76,33 +77,43 @@ impl ConfigurationAccess for Twin {
 
 // ---------------------------------------------------------------- BAR descriptions
 #[derive(Clone, Copy, Debug)]
-pub enum Spec { Unimpl, Io { k: u32, addr: u32 }, Mem { ty: u8, pf: bool, k: u32, addr: u32 }, Mem64 { pf: bool, k: u32, addr: u64 } }
-fn ones32(k: u32) -> u32 { if k >= 32 { 0xffff_ffff } else { (1u32 << k) - 1 } }
+/// writable address bits are the run [k, m): size 2^k, bits >= m hard-wired zero (m = 32 / 64: full decoder;
+/// m = 16 on an I/O BAR: 16-bit I/O decoder; m = 20 on a below-1-MiB BAR; 64-bit BARs of devices with fewer address lines)
+pub enum Spec { Unimpl, Io { k: u32, m: u32, addr: u32 }, Mem { ty: u8, pf: bool, k: u32, m: u32, addr: u32 }, Mem64 { pf: bool, k: u32, m: u32, addr: u64 } }
+pub fn ones32(k: u32) -> u32 { if k >= 32 { 0xffff_ffff } else { (1u32 << k) - 1 } }
+/// hard-wired bits of a register whose writable bits are [k, m)
+pub fn fmask(k: u32, m: u32) -> u32 { ones32(k) | !ones32(m) }
 impl Spec {
-    fn slots(&self) -> Vec<Slot> {
+    pub fn slots(&self) -> Vec<Slot> {
         match *self {
             Spec::Unimpl => vec![DSLOT],
-            Spec::Io { k, addr } => vec![Slot { kind: 1, mask: ones32(k), val: addr | 1 }],
-            Spec::Mem { ty, pf, k, addr } => vec![Slot { kind: 2 + ty, mask: ones32(k), val: addr | ((ty as u32) << 1) | ((pf as u32) << 3) }],
-            Spec::Mem64 { pf, k, addr } => vec![
-                Slot { kind: 4, mask: ones32(k.min(32)), val: (addr as u32) | 4 | ((pf as u32) << 3) },
-                Slot { kind: 5, mask: ones32(k.saturating_sub(32)), val: (addr >> 32) as u32 }],
+            Spec::Io { k, m, addr } => vec![Slot { kind: 1, mask: fmask(k, m), val: addr | 1 }],
+            Spec::Mem { ty, pf, k, m, addr } => vec![Slot { kind: 2 + ty, mask: fmask(k, m), val: addr | ((ty as u32) << 1) | ((pf as u32) << 3) }],
+            Spec::Mem64 { pf, k, m, addr } => vec![
+                Slot { kind: 4, mask: fmask(k.min(32), m.min(32)), val: (addr as u32) | 4 | ((pf as u32) << 3) },
+                Slot { kind: 5, mask: fmask(k.saturating_sub(32), m.saturating_sub(32)), val: (addr >> 32) as u32 }],
         }
     }
+    fn narrow(&self) -> bool { match self { Spec::Unimpl => false, Spec::Io { m, .. } | Spec::Mem { m, .. } => *m < 32, Spec::Mem64 { m, .. } => *m < 64 } }
     fn name(&self) -> &'static str { match self { Spec::Unimpl => "unimpl", Spec::Io { .. } => "io", Spec::Mem { ty: 0, .. } => "mem32", Spec::Mem { .. } => "below1m", Spec::Mem64 { .. } => "mem64" } }
 }
 /// a size-aligned address for a 2^k BAR inside `bits` address bits: mostly non-zero
-fn aligned_addr(ctx: &mut Ctx, k: u32, bits: u32) -> u64 {
+pub fn aligned_addr(ctx: &mut Ctx, k: u32, bits: u32) -> u64 {
     let top = if bits >= 64 { u64::MAX } else { (1u64 << bits) - 1 };
     let m = !((1u64 << k) - 1) & top;
     match ctx.rng.below(6) { 0 => m, 1 => 1u64 << k, 2 => 0, 3 => (1u64 << (bits - 1)) & m, _ => { let a = ctx.rng.next() & m; if a == 0 { 1u64 << k } else { a } } }
 }
+/// upper end of the writable run: the full decoder, the typical narrow one, or anything above k
+fn top_for(ctx: &mut Ctx, k: u32, full: u32, typical: u32) -> u32 {
+    match ctx.rng.below(4) { 0 | 1 => full, 2 if typical > k => typical, _ => ctx.rng.range(k as u64 + 1, full as u64) as u32 }
+}
 fn random_spec(ctx: &mut Ctx, allow64: bool) -> Spec {
     match ctx.rng.below(if allow64 { 6 } else { 4 }) {
         0 => Spec::Unimpl,
-        1 => { let k = ctx.rng.range(2, 31) as u32; Spec::Io { k, addr: aligned_addr(ctx, k, 32) as u32 } }
-        2 | 3 => { let k = ctx.rng.range(4, 31) as u32; Spec::Mem { ty: ctx.rng.below(2) as u8, pf: ctx.rng.chance(1, 2), k, addr: aligned_addr(ctx, k, 32) as u32 } }
-        _ => { let k = ctx.rng.range(4, 63) as u32; Spec::Mem64 { pf: ctx.rng.chance(1, 2), k, addr: aligned_addr(ctx, k, 64) } }
+        1 => { let k = ctx.rng.range(2, 31) as u32; let m = top_for(ctx, k, 32, 16); Spec::Io { k, m, addr: aligned_addr(ctx, k, m) as u32 } }
+        2 | 3 => { let k = ctx.rng.range(4, 31) as u32; let ty = ctx.rng.below(2) as u8; let m = top_for(ctx, k, 32, if ty == 1 { 20 } else { 24 });
+                   Spec::Mem { ty, pf: ctx.rng.chance(1, 2), k, m, addr: aligned_addr(ctx, k, m) as u32 } }
+        _ => { let k = ctx.rng.range(4, 63) as u32; let m = top_for(ctx, k, 64, 48); Spec::Mem64 { pf: ctx.rng.chance(1, 2), k, m, addr: aligned_addr(ctx, k, m) } }
     }
 }
 /// six registers: `spec` at `slot`, well-formed random BARs elsewhere
@@ -149,7 +160,7 @@ fn enc_res(r: &std::thread::Result<Result<Option<BarInfo>, PciError>>) -> Vec<u1
         Err(_) => vec![2, 0, 0, 0, 0, 0],
     }
 }
-fn enc_log(log: &[(bool, u8, u32, u16)]) -> Vec<u128> {
+pub fn enc_log(log: &[(bool, u8, u32, u16)]) -> Vec<u128> {
     let mut o = vec![];
     for (w, off, v, c) in log { o.extend([*w as u128, *off as u128, *v as u128, *c as u128]); }
     o
@@ -225,32 +236,47 @@ fn bar_scenarios(ctx: &mut Ctx) {
         bars[5] = Slot { kind: 4, mask: 0x0000_ffff, val: 0xfe00_0004 };
         probe(ctx, RefFn::new(0x0003, 0x0010, bars), 5);
         // F5b: a command value with a bit that has no named flag, decoding enabled
-        let bars = layout_with(ctx, Spec::Mem { ty: 0, pf: false, k: 14, addr: 0xfe00_0000 }, 0);
+        let bars = layout_with(ctx, Spec::Mem { ty: 0, pf: false, k: 14, m: 32, addr: 0xfe00_0000 }, 0);
         probe(ctx, RefFn::new(0x0083, 0x0010, bars), 0);
         // decoding disabled: nothing is written to the command register
         probe(ctx, RefFn::new(0x0080, 0x0010, bars), 0);
+        // F11: an I/O BAR with a 16-bit decoder (upper 16 address bits hard-wired zero): 0x100 bytes at 0xc000
+        let bars = layout_with(ctx, Spec::Io { k: 8, m: 16, addr: 0xc000 }, 0);
+        probe(ctx, RefFn::new(0x0001, 0x0010, bars), 0);
+        // the same situation on a below-1-MiB memory BAR (20 address bits) and on a 64-bit BAR with 40 address lines
+        let bars = layout_with(ctx, Spec::Mem { ty: 1, pf: false, k: 12, m: 20, addr: 0x000c_8000 }, 1);
+        probe(ctx, RefFn::new(0x0002, 0x0010, bars), 1);
+        let bars = layout_with(ctx, Spec::Mem64 { pf: true, k: 24, m: 40, addr: 0x0000_00fe_0100_0000 }, 2);
+        probe(ctx, RefFn::new(0x0006, 0x0010, bars), 2);
     }
     // every kind x size x prefetchable x slot, commands and addresses rotating through the directed sets
     let per = ctx.budget(3, 8) as usize;
     let mut rot = 0usize;
     let mut specs: Vec<Spec> = vec![Spec::Unimpl];
-    for k in 2..=31 { specs.push(Spec::Io { k, addr: 0 }); }
-    for ty in 0..2u8 { for pf in [false, true] { for k in 4..=31 { specs.push(Spec::Mem { ty, pf, k, addr: 0 }); } } }
-    for pf in [false, true] { for k in 4..=63 { specs.push(Spec::Mem64 { pf, k, addr: 0 }); } }
+    for k in 2..=31 { specs.push(Spec::Io { k, m: 32, addr: 0 }); }
+    for ty in 0..2u8 { for pf in [false, true] { for k in 4..=31 { specs.push(Spec::Mem { ty, pf, k, m: 32, addr: 0 }); } } }
+    for pf in [false, true] { for k in 4..=63 { specs.push(Spec::Mem64 { pf, k, m: 64, addr: 0 }); } }
+    // narrow decoders: writable run [k, m) with m below the register width
+    for k in 2..=15 { specs.push(Spec::Io { k, m: 16, addr: 0 }); }
+    for k in 2..=30 { if k % 2 == 1 { specs.push(Spec::Io { k, m: k + 1 + (k * 7) % (31 - k), addr: 0 }); } }
+    for k in 4..=19 { specs.push(Spec::Mem { ty: 1, pf: k % 2 == 0, k, m: 20, addr: 0 }); }
+    for m in [24u32, 31] { for k in 4..m { specs.push(Spec::Mem { ty: 0, pf: k % 2 == 1, k, m, addr: 0 }); } }
+    for m in [32u32, 33, 40, 48, 63] { for k in 4..m { if (k + m) % 2 == 0 || k + 1 == m || k == 4 { specs.push(Spec::Mem64 { pf: k % 4 < 2, k, m, addr: 0 }); } } }
     for slot in 0..6usize {
         ctx.tr.scenario(&format!("c12-bar-slot{}", slot));
         for sp in &specs {
             for rep in 0..per {
                 let sp = match *sp {
                     Spec::Unimpl => Spec::Unimpl,
-                    Spec::Io { k, .. } => Spec::Io { k, addr: aligned_addr(ctx, k, 32) as u32 },
-                    Spec::Mem { ty, pf, k, .. } => Spec::Mem { ty, pf, k, addr: aligned_addr(ctx, k, 32) as u32 },
-                    Spec::Mem64 { pf, k, .. } => Spec::Mem64 { pf, k, addr: aligned_addr(ctx, k, 64) },
+                    Spec::Io { k, m, .. } => Spec::Io { k, m, addr: aligned_addr(ctx, k, m) as u32 },
+                    Spec::Mem { ty, pf, k, m, .. } => Spec::Mem { ty, pf, k, m, addr: aligned_addr(ctx, k, m) as u32 },
+                    Spec::Mem64 { pf, k, m, .. } => Spec::Mem64 { pf, k, m, addr: aligned_addr(ctx, k, m) },
                 };
                 let cmd = if rep + 1 == per && per > 1 { ctx.rng.next() as u16 } else { rot += 1; cmds[rot % cmds.len()] };
                 let status = if ctx.rng.chance(1, 2) { 0x0010 } else { ctx.rng.next() as u16 };
                 let bars = layout_with(ctx, sp, slot);
                 ctx.tr.note(&format!("bar_{}", sp.name()));
+                if sp.narrow() { ctx.tr.note("bar_narrow_decoder"); }
                 if cmd & 3 != 0 { ctx.tr.note("cmd_decode_on"); } else { ctx.tr.note("cmd_decode_off"); }
                 if cmd & !0x077f != 0 { ctx.tr.note("cmd_unnamed_bits"); }
                 probe(ctx, RefFn::new(cmd, status, bars), slot as u8);
@@ -259,9 +285,9 @@ fn bar_scenarios(ctx: &mut Ctx) {
     }
     // all directed commands on one BAR of each kind
     ctx.tr.scenario("c12-bar-commands");
-    for sp in [Spec::Unimpl, Spec::Io { k: 8, addr: 0xc000 }, Spec::Mem { ty: 0, pf: true, k: 12, addr: 0xfebf_1000 },
-               Spec::Mem { ty: 1, pf: false, k: 16, addr: 0x000a_0000 }, Spec::Mem64 { pf: true, k: 34, addr: 0x0000_0038_0000_0000 },
-               Spec::Mem64 { pf: false, k: 14, addr: 0xffff_ffff_ffff_c000 }] {
+    for sp in [Spec::Unimpl, Spec::Io { k: 8, m: 32, addr: 0xc000 }, Spec::Io { k: 5, m: 16, addr: 0xffe0 }, Spec::Mem { ty: 0, pf: true, k: 12, m: 32, addr: 0xfebf_1000 },
+               Spec::Mem { ty: 1, pf: false, k: 16, m: 20, addr: 0x000a_0000 }, Spec::Mem64 { pf: true, k: 34, m: 64, addr: 0x0000_0038_0000_0000 },
+               Spec::Mem64 { pf: false, k: 14, m: 48, addr: 0x0000_ffff_ffff_c000 }] {
         for c in &cmds {
             let slot = ctx.rng.below(5) as usize;
             let bars = layout_with(ctx, sp, slot);
